@@ -128,13 +128,16 @@ def lint(fn_node, pairs=PAIRS, exempt=()):
                 continue
             if b["tocc"] != [m[t] for t in a["tocc"]]:
                 continue
-            want = [m[t] for t in a["occ"]]
-            if b["occ"] == want:
+            # the involution that maps the targets onto each other: only the token pairs that actually occur in the
+            # targets are "active"; tokens of other pairs (e.g. lower/upper inside an fnr/fpr mirror) are unconstrained
+            active = set(a["tocc"]) | set(b["tocc"])
+            want = [m[t] if t in active else None for t in a["occ"]]
+            if all(w is None or x == w for x, w in zip(b["occ"], want)):
                 pairs_ok += 1
                 continue
             if a["src"] in exempt or b["src"] in exempt:
                 continue
-            diff = [k for k, (x, y) in enumerate(zip(b["occ"], want)) if x != y]
+            diff = [k for k, (x, y) in enumerate(zip(b["occ"], want)) if y is not None and x != y]
             findings.append({"line": b["line"], "statement": b["src"], "partner_line": a["line"], "partner": a["src"],
                              "detail": "identifier(s) %s are not the mirror image of the partner statement (expected %s)" % (
                                  [b["occ"][k] for k in diff], [want[k] for k in diff])})
